@@ -37,7 +37,9 @@ def demo(n):
     d = os.path.join("/tmp", "seeded_demo_dir", n)
     sh(f"rm -rf {d}; mkdir -p {d}; cp -r {src}/. {d}/")
     wt = "/tmp/seed-" + n.split("-")[0].lower()
-    sh(f"grep -rlZ '{wt}' {d} | xargs -0 -r sed -i 's#{wt}/_build#{BUILD}#g; s#{wt}#/repo#g'")
+    wt2 = wt.replace("/tmp/seed-", "/tmp/seed2-")
+    sh(f"grep -rlZ -e '{wt}' -e '{wt2}' {d} | xargs -0 -r sed -i "
+       f"'s#{wt2}/_build#{BUILD}#g; s#{wt2}#/repo#g; s#{wt}/_build#{BUILD}#g; s#{wt}#/repo#g'")
     if "libtestcel" in open(os.path.join(d, "demo.sh")).read() if os.path.exists(os.path.join(d, "demo.sh")) else False:
         return None, "needs test libraries: run by tools/confirm_seeded_tests.py in its own worktree"
     sh(f"ninja -C {BUILD} libcorecel.so libgeocel.so liborange.so libceleritas.so")
@@ -51,7 +53,7 @@ def demo(n):
     if os.path.exists(script):
         txt = open(script).read()
         envs = (f"R=/repo B={BUILD} SRC=/repo BUILD={BUILD} CELER_SRC=/repo CELER_BUILD={BUILD} "
-                f"REPO_ROOT=/repo BUILD_DIR={BUILD} CELER_SOURCE_ROOT=/repo ROOT=/repo CELER_ROOT=/repo WT=/repo")
+                f"REPO_ROOT=/repo BUILD_DIR={BUILD} CELER_SOURCE_ROOT=/repo ROOT=/repo CELER_ROOT=/repo WT=/repo C05_SRC=/repo C05_BUILD={BUILD}")
         if ("ROOT=${ROOT:-" in txt and "/seeded" in txt and "CFG" in txt and "-lcorecel" not in txt
                 and os.path.exists(cc)):
             exe = os.path.join("/tmp", "seeded_demo_" + n)
